@@ -14,6 +14,7 @@ Record RW (w : world) (sw : sworld) : Prop := {
   RW_hl : w_hl w = s_hl sw;
   RW_stuck : w_stuck w = false;
   RW_ok : s_ok sw = true;
+  RW_env : w_env w = s_env sw;
   RW_hsok : forall k e, pv_get (s_hs sw) k = Some e -> handle_ok (s_life sw) e;
   RW_hlok : forall e, In e (s_hl sw) -> handle_ok (s_life sw) e }.
 
@@ -53,6 +54,72 @@ Proof.
 Qed.
 
 (* ------------------------------------------------------------------ *)
+(* the storage layer sees the same allocator through both machines *)
+
+Definition av_eq_at (av1 av2 : aview) (e : entity) : Prop :=
+  av_alive av1 e = av_alive av2 e /\ av_cur_gen av1 (fst e) = av_cur_gen av2 (fst e) /\
+  av_err_gen av1 (fst e) = av_err_gen av2 (fst e).
+
+Lemma view_agree a s e : R a s -> LInv s -> handle_ok s e -> av_eq_at (a_view a) (l_view s) e.
+Proof.
+  intros HR HI Hok. destruct (handle_ok_cell _ _ HI Hok) as [W1 W2]. unfold av_eq_at, a_view, l_view; cbn.
+  split; [apply (is_alive_ref a s [] HR HI e W1 W2)|]. split; [apply (cur_gen_ref a s [] HR HI) | apply (err_gen_ref a s [] HR HI)].
+Qed.
+
+Lemma st_insert_cong ms av1 av2 e v c : av_eq_at av1 av2 e -> st_insert ms av1 e v c = st_insert ms av2 e v c.
+Proof. intros [H1 [H2 _]]. unfold st_insert. rewrite H1, H2. reflexivity. Qed.
+
+Lemma present_cong ms av1 av2 e : av_eq_at av1 av2 e -> present ms av1 e = present ms av2 e.
+Proof. intros [H1 _]. unfold present. rewrite H1. reflexivity. Qed.
+
+Lemma st_get_cong ms av1 av2 e c : av_eq_at av1 av2 e -> st_get ms av1 e c = st_get ms av2 e c.
+Proof. intros H. unfold st_get. rewrite (present_cong ms av1 av2 e H). reflexivity. Qed.
+
+Lemma st_get_mut_cong ms av1 av2 e t nv c : av_eq_at av1 av2 e -> st_get_mut ms av1 e t nv c = st_get_mut ms av2 e t nv c.
+Proof. intros H. unfold st_get_mut. rewrite (present_cong ms av1 av2 e H). reflexivity. Qed.
+
+Lemma st_remove_cong ms av1 av2 e c : av_eq_at av1 av2 e -> st_remove ms av1 e c = st_remove ms av2 e c.
+Proof. intros [H1 _]. unfold st_remove. rewrite H1. reflexivity. Qed.
+
+Lemma st_entry_cong ms av1 av2 e o c : av_eq_at av1 av2 e -> st_entry ms av1 e o c = st_entry ms av2 e o c.
+Proof. intros [H1 [_ H3]]. unfold st_entry. rewrite H1, H3. reflexivity. Qed.
+
+Lemma st_gmd_cong ms av1 av2 e c : av_eq_at av1 av2 e ->
+  st_get_mut_or_default ms av1 e c = st_get_mut_or_default ms av2 e c.
+Proof.
+  intros H. unfold st_get_mut_or_default. rewrite (present_cong ms av1 av2 e H).
+  rewrite (st_get_mut_cong ms av1 av2 e false None c H).
+  rewrite (st_insert_cong ms av1 av2 e _ (cx_mint c) H).
+  destruct (st_insert ms av2 e _ (cx_mint c)) as [[ms1 r] c1].
+  destruct (present ms av2 e); [reflexivity|].
+  destruct r; try reflexivity; apply st_get_mut_cong; assumption.
+Qed.
+
+Lemma env_insert_comps_cong cs : forall env av1 av2 e, av_eq_at av1 av2 e ->
+  env_insert_comps env av1 e cs = env_insert_comps env av2 e cs.
+Proof.
+  induction cs as [|[sid v] cs IH]; intros env av1 av2 e H; cbn [env_insert_comps]; [reflexivity|].
+  destruct (NM.find sid (se_stores env)); [|apply IH; assumption].
+  rewrite (st_insert_cong _ av1 av2 e v _ H). destruct (st_insert _ av2 e v _) as [[ms1 r] c1]. apply IH. assumption.
+Qed.
+
+Lemma env_sop_cong env av1 av2 hs so :
+  (forall k e, pv_get hs k = Some e -> av_eq_at av1 av2 e) ->
+  env_sop env av1 hs so = env_sop env av2 hs so.
+Proof.
+  intros H. destruct so; cbn [env_sop]; try reflexivity;
+  (destruct (pv_get hs (N.of_nat h)) as [e|] eqn:Eh; [|reflexivity]);
+  (destruct (NM.find sid (se_stores env)) as [ms|]; [|reflexivity]); specialize (H _ _ Eh).
+  - rewrite (st_insert_cong ms av1 av2 e v _ H). reflexivity.
+  - rewrite (st_get_cong ms av1 av2 e _ H). reflexivity.
+  - rewrite (st_get_mut_cong ms av1 av2 e _ _ _ H). reflexivity.
+  - rewrite (st_remove_cong ms av1 av2 e _ H). reflexivity.
+  - unfold st_contains. rewrite (present_cong ms av1 av2 e H). reflexivity.
+  - rewrite (st_entry_cong ms av1 av2 e _ _ H). reflexivity.
+  - rewrite (st_gmd_cong ms av1 av2 e _ H). reflexivity.
+Qed.
+
+(* ------------------------------------------------------------------ *)
 (* building blocks *)
 
 Lemma pv_get_push {A} (v : pvec A) x k y : pv_get (pv_push v x) k = Some y ->
@@ -68,9 +135,9 @@ Qed.
 Lemma create_sim pend w sw : RW w sw ->
   let '(w1, e) := w_create pend w in
   let '(sw1, e') := s_create pend sw (fst e) in
-  e' = e /\ RW w1 sw1.
+  e' = e /\ RW w1 sw1 /\ handle_ok (s_life sw1) e /\ l_is_alive (s_life sw1) e = true.
 Proof.
-  intros [HR HI Hhs Hhl Hst Hok Hhsok Hhlok]. unfold w_create, s_create.
+  intros [HR HI Hhs Hhl Hst Hok Henv Hhsok Hhlok]. unfold w_create, s_create.
   assert (let '(a', e) := (if pend then a_alloc_atomic (w_alloc w) else a_alloc (w_alloc w)) in
           valid_choice (s_life sw) (fst e) = true /\
           l_create pend (s_life sw) (fst e) = (fst (l_create pend (s_life sw) (fst e)), e) /\
@@ -82,7 +149,10 @@ Proof.
   assert (used (s_life sw) <= used s') as Hmono by apply used_create_ge.
   assert (handle_ok s' e) as Hnew.
   { pose proof (created_ok pend (s_life sw) (fst e) HI Hv) as X. rewrite He in X. exact X. }
-  split; cbn [w_alloc w_hs w_hl w_stuck push_h with_alloc s_life s_hs s_hl s_ok s_push_h with_life]; auto.
+  assert (l_is_alive s' e = true) as Halive.
+  { pose proof (life_alive_on_return pend (s_life sw) (fst e)) as X. rewrite He in X. exact X. }
+  split; [|split; [exact Hnew | exact Halive]].
+  split; cbn [w_alloc w_hs w_hl w_stuck w_env push_h with_alloc s_life s_hs s_hl s_ok s_env s_push_h with_life]; auto.
   - apply create_LInv; assumption.
   - rewrite Hhs. reflexivity.
   - rewrite Hhl. reflexivity.
@@ -100,7 +170,7 @@ Proof.
   - cbn [map]. auto.
   - pose proof (create_sim pend w sw HRW) as X. destruct (w_create pend w) as [w1 e].
     specialize (IH w1). destruct (w_create_n pend n w1) as [w2 l]. cbn [map].
-    destruct (s_create pend sw (fst e)) as [sw1 e']. destruct X as [-> HRW1].
+    destruct (s_create pend sw (fst e)) as [sw1 e']. destruct X as [-> [HRW1 _]].
     specialize (IH sw1 HRW1). destruct (s_create_n pend n sw1 (map fst l)) as [sw2 l'].
     destruct IH as [-> HRW2]. auto.
 Qed.
@@ -114,8 +184,8 @@ Proof. unfold l_kill_def. destruct (l_is_alive s e); reflexivity. Qed.
 Lemma RW_with_life w sw a' s' : RW w sw -> R a' s' -> LInv s' -> used (s_life sw) <= used s' ->
   RW (with_alloc w a') (with_life sw s').
 Proof.
-  intros [HR HI Hhs Hhl Hst Hok Hhsok Hhlok] HR' HI' Hmono.
-  split; cbn [w_alloc w_hs w_hl w_stuck with_alloc s_life s_hs s_hl s_ok with_life]; auto.
+  intros [HR HI Hhs Hhl Hst Hok Henv Hhsok Hhlok] HR' HI' Hmono.
+  split; cbn [w_alloc w_hs w_hl w_stuck w_env with_alloc s_life s_hs s_hl s_ok s_env with_life]; auto.
   - intros k e Hk. apply (handle_ok_mono (s_life sw)); eauto.
   - intros e He. apply (handle_ok_mono (s_life sw)); eauto.
 Qed.
@@ -123,7 +193,7 @@ Qed.
 Lemma builder_drop_sim w sw e : RW w sw -> l_is_alive (s_life sw) e = true -> handle_ok (s_life sw) e ->
   RW (w_builder_drop w e) (s_builder_drop sw e).
 Proof.
-  intros HRW Ha Hok. pose proof HRW as [HR HI _ _ _ _ _ _].
+  intros HRW Ha Hok. pose proof HRW as [HR HI _ _ _ _ _ _ _].
   destruct (handle_ok_cell _ _ HI Hok) as [W1 W2].
   unfold w_builder_drop, s_builder_drop.
   pose proof (kill_atomic_ref (w_alloc w) (s_life sw) e HR HI W1 W2) as X.
@@ -168,7 +238,7 @@ Lemma kill_sim w sw es : RW w sw -> (forall e, In e es -> handle_ok (s_life sw) 
   let '(s', r') := l_kill_res (s_life sw) es in
   r' = r /\ RW (with_alloc w a') (with_life sw s').
 Proof.
-  intros HRW Hok. pose proof HRW as [HR HI _ _ _ _ _ _].
+  intros HRW Hok. pose proof HRW as [HR HI _ _ _ _ _ _ _].
   pose proof (kill_ref (w_alloc w) (s_life sw) es HR HI (fun e He => handle_ok_cell _ _ HI (Hok e He))) as X.
   destruct (a_kill true (w_alloc w) es) as [a' r]. destruct X as [E [HR' HI']].
   assert (used (fst (l_kill_res (s_life sw) es)) = used (s_life sw)) as Hu.
@@ -180,59 +250,68 @@ Qed.
 (* ------------------------------------------------------------------ *)
 (* one step *)
 
-Theorem wstep_sim w sw o : RW w sw ->
-  let '(w', out) := wstep true w o in
-  let '(sw', out') := sstep sw o (choices_of out) in
+Lemma RW_env_update w sw e' : RW w sw -> RW (with_env w e') (s_with_env sw e').
+Proof. intros [HR HI Hhs Hhl Hst Hok Henv Hhsok Hhlok]. split; cbn; auto. Qed.
+
+Lemma RW_begin w sw : RW w sw -> RW (w_begin w) (s_begin sw).
+Proof. intros H. unfold w_begin, s_begin. rewrite (RW_env _ _ H). apply RW_env_update. assumption. Qed.
+
+Lemma insert_comps_sim w sw e cs : RW w sw -> handle_ok (s_life sw) e ->
+  RW (w_insert_comps w e cs) (s_insert_comps sw e cs).
+Proof.
+  intros H Hok. unfold w_insert_comps, s_insert_comps. rewrite (RW_env _ _ H).
+  rewrite (env_insert_comps_cong cs (s_env sw) _ _ e (view_agree _ _ e (RW_alloc _ _ H) (RW_inv _ _ H) Hok)).
+  apply RW_env_update. assumption.
+Qed.
+
+Lemma purge_sim w sw es r : RW w sw -> RW (w_purge_killed w es r) (s_purge_killed sw es r).
+Proof. intros H. unfold w_purge_killed, s_purge_killed. rewrite (RW_env _ _ H). apply RW_env_update. assumption. Qed.
+
+Theorem wstep_core_sim w sw o : RW w sw ->
+  let '(w', out) := wstep_core true w o in
+  let '(sw', out') := sstep_core sw o (choices_of out) in
   out' = out /\ RW w' sw'.
 Proof.
-  intros HRW. pose proof HRW as [HR HI Hhs Hhl Hst Hok Hhsok Hhlok].
-  destruct o as [cs|cs|n| |n|built cs|cs|h|hs|h| | |h|h| |h| | ]; cbn [wstep sstep].
+  intros HRW. pose proof HRW as [HR HI Hhs Hhl Hst Hok Henv Hhsok Hhlok].
+  destruct o as [cs|cs|n| |n|built cs|cs|h|hs|h| | |h|h| |h| |so| | ]; cbn [wstep_core sstep_core].
   - (* OCreate *)
     pose proof (create_sim false w sw HRW) as X. destruct (w_create false w) as [w1 e]. cbn [choices_of map hd_choice].
-    destruct (s_create false sw (fst e)) as [sw1 e']. destruct X as [-> H]. auto.
+    destruct (s_create false sw (fst e)) as [sw1 e']. destruct X as [-> [H [Hk _]]]. split; [reflexivity|].
+    apply insert_comps_sim; assumption.
   - (* OCreateDropped *)
-    pose proof (create_sim false w sw HRW) as X. unfold w_create, s_create in *.
-    destruct (a_alloc (w_alloc w)) as [a' e] eqn:Ea. cbn [choices_of map hd_choice].
-    pose proof (life_alive_on_return false (s_life sw) (fst e)) as Hal.
-    destruct (l_create false (s_life sw) (fst e)) as [s' e'] eqn:El. cbn [fst snd] in *.
-    destruct X as [-> HRW1]. split; [reflexivity|].
-    destruct (valid_choice (s_life sw) (fst e)) eqn:Hv.
-    + apply builder_drop_sim; [assumption | exact Hal|].
-      apply (RW_hlok _ _ HRW1). left. reflexivity.
-    + destruct HRW1 as [_ _ _ _ _ Hbad _ _]. discriminate.
+    pose proof (create_sim false w sw HRW) as X. destruct (w_create false w) as [w1 e]. cbn [choices_of map hd_choice].
+    destruct (s_create false sw (fst e)) as [sw1 e']. destruct X as [-> [H [Hk Ha]]]. split; [reflexivity|].
+    apply builder_drop_sim; [apply insert_comps_sim; assumption | exact Ha | exact Hk].
   - (* OCreateIter *)
     pose proof (create_n_sim false n w sw HRW) as X. destruct (w_create_n false n w) as [w1 l]. cbn [choices_of].
     destruct (s_create_n false n sw (map fst l)) as [sw1 l']. destruct X as [-> H]. auto.
   - (* OECreate *)
     pose proof (create_sim true w sw HRW) as X. destruct (w_create true w) as [w1 e]. cbn [choices_of map hd_choice].
-    destruct (s_create true sw (fst e)) as [sw1 e']. destruct X as [-> H]. auto.
+    destruct (s_create true sw (fst e)) as [sw1 e']. destruct X as [-> [H _]]. auto.
   - (* OECreateIter *)
     pose proof (create_n_sim true n w sw HRW) as X. destruct (w_create_n true n w) as [w1 l]. cbn [choices_of].
     destruct (s_create_n true n sw (map fst l)) as [sw1 l']. destruct X as [-> H]. auto.
   - (* OEBuild *)
-    pose proof (create_sim true w sw HRW) as X. unfold w_create, s_create in *.
-    destruct (a_alloc_atomic (w_alloc w)) as [a' e] eqn:Ea. cbn [choices_of map hd_choice].
-    pose proof (life_alive_on_return true (s_life sw) (fst e)) as Hal.
-    destruct (l_create true (s_life sw) (fst e)) as [s' e'] eqn:El. cbn [fst snd] in *.
-    destruct X as [-> HRW1]. split; [reflexivity|]. destruct built; [assumption|].
-    destruct (valid_choice (s_life sw) (fst e)) eqn:Hv.
-    + apply builder_drop_sim; [assumption | exact Hal|].
-      apply (RW_hlok _ _ HRW1). left. reflexivity.
-    + destruct HRW1 as [_ _ _ _ _ Hbad _ _]. discriminate.
+    pose proof (create_sim true w sw HRW) as X. destruct (w_create true w) as [w1 e]. cbn [choices_of map hd_choice].
+    destruct (s_create true sw (fst e)) as [sw1 e']. destruct X as [-> [H [Hk Ha]]]. split; [reflexivity|].
+    destruct built; [apply insert_comps_sim; assumption|].
+    apply builder_drop_sim; [apply insert_comps_sim; assumption | exact Ha | exact Hk].
   - (* OLazyCreate *)
     pose proof (create_sim true w sw HRW) as X. destruct (w_create true w) as [w1 e]. cbn [choices_of map hd_choice].
-    destruct (s_create true sw (fst e)) as [sw1 e']. destruct X as [-> H]. auto.
+    destruct (s_create true sw (fst e)) as [sw1 e']. destruct X as [-> [H _]]. auto.
   - (* ODelete *)
     rewrite Hhs. destruct (hget (s_hs sw) h) as [e|] eqn:Eh; [|cbn [choices_of]; rewrite ?Eh; auto].
     pose proof (kill_sim w sw [e] HRW) as X.
     destruct (a_kill true (w_alloc w) [e]) as [a' r]. cbn [choices_of]. rewrite ?Eh.
-    destruct (l_kill_res (s_life sw) [e]) as [s' r']. destruct X as [-> H]; [|auto].
-    intros x [<-|[]]. apply (Hhsok _ _ Eh).
+    destruct (l_kill_res (s_life sw) [e]) as [s' r']. destruct X as [-> H].
+    { intros x [<-|[]]. apply (Hhsok _ _ Eh). }
+    split; [reflexivity|]. apply purge_sim. assumption.
   - (* ODeleteMany *)
     rewrite Hhs. destruct (hget_all (s_hs sw) hs) as [es|] eqn:Eh; [|cbn [choices_of]; rewrite ?Eh; auto].
     pose proof (kill_sim w sw es HRW (hget_all_ok sw hs es Hhsok Eh)) as X.
     destruct (a_kill true (w_alloc w) es) as [a' r]. cbn [choices_of]. rewrite ?Eh.
-    destruct (l_kill_res (s_life sw) es) as [s' r']. destruct X as [-> H]. auto.
+    destruct (l_kill_res (s_life sw) es) as [s' r']. destruct X as [-> H].
+    split; [reflexivity|]. apply purge_sim. assumption.
   - (* OEDelete *)
     rewrite Hhs. destruct (hget (s_hs sw) h) as [e|] eqn:Eh; [|cbn [choices_of]; rewrite ?Eh; auto].
     destruct (handle_ok_cell _ _ HI (Hhsok _ _ Eh)) as [W1 W2].
@@ -256,12 +335,15 @@ Proof.
                     (fun e He => proj1 (life_entities_alive _ e) He) (entities_nodup_fst _)) as K.
       destruct (l_kill (s_life sw) (l_entities (s_life sw)) 0) as [s1 r1]. cbn [snd] in K. subst r1. reflexivity. }
     destruct (l_kill_res (s_life sw) (l_entities (s_life sw))) as [s' r']. cbn [snd] in Hnone. subst r'.
-    destruct X as [<- H]. auto.
+    destruct X as [<- H]. split; [reflexivity|]. apply purge_sim. assumption.
   - (* OMaintain *)
     pose proof (merge_ref (w_alloc w) (s_life sw) HR HI) as X. destruct (a_merge (w_alloc w)) as [a' d]. cbn [choices_of].
     pose proof (merge_LInv _ HI) as HI'. pose proof (used_merge (s_life sw)) as Hu.
-    destruct (l_merge (s_life sw)) as [s' d']. cbn [fst snd] in *. destruct X as [_ HR'].
-    split; [reflexivity|]. apply RW_with_life; auto. lia.
+    destruct (l_merge (s_life sw)) as [s' d']. cbn [fst snd] in *. destruct X as [-> HR'].
+    split; [reflexivity|].
+    assert (RW (with_alloc w a') (with_life sw s')) as H1 by (apply RW_with_life; auto; lia).
+    destruct d' as [|x d']; [assumption|].
+    rewrite (RW_env _ _ H1). apply RW_env_update. assumption.
   - (* OIsAlive *)
     rewrite Hhs. destruct (hget (s_hs sw) h) as [e|] eqn:Eh; cbn [choices_of]; rewrite ?Eh; [|auto].
     destruct (handle_ok_cell _ _ HI (Hhsok _ _ Eh)) as [W1 W2].
@@ -280,11 +362,26 @@ Proof.
     cbn [choices_of]. rewrite Hhl. split; [|assumption]. f_equal. f_equal.
     apply map_ext_in. intros e He. destruct (handle_ok_cell _ _ HI (Hhlok e He)) as [W1 W2].
     symmetry. apply (is_alive_ref _ _ [] HR HI e W1 W2).
+  - (* OStore *)
+    rewrite Henv, Hhs.
+    rewrite (env_sop_cong (s_env sw) (a_view (w_alloc w)) (l_view (s_life sw)) (s_hs sw) so)
+      by (intros k e Hk; apply view_agree; eauto).
+    destruct (env_sop (s_env sw) (l_view (s_life sw)) (s_hs sw) so) as [e' out].
+    split; [reflexivity|]. apply RW_env_update. assumption.
+  - (* ODropWorld *)
+    cbn [choices_of]. split; [reflexivity|]. rewrite Henv. apply RW_env_update. assumption.
   - cbn [choices_of]. auto.
 Qed.
 
-Lemma RW_not_stuck w sw : RW w sw -> w_is_stuck w = false.
-Proof. intros H. unfold w_is_stuck. rewrite (RW_stuck _ _ H), (R_stuck _ _ _ (RW_alloc _ _ H)). reflexivity. Qed.
+Theorem wstep_sim w sw o : RW w sw ->
+  let '(w', out) := wstep true w o in
+  let '(sw', out') := sstep sw o (choices_of out) in
+  out' = out /\ RW w' sw'.
+Proof. intros H. unfold wstep, sstep. apply wstep_core_sim. apply RW_begin. assumption. Qed.
+
+(* the allocator and the world-level glue never panic; storages: see StoreInv.v *)
+Lemma RW_not_stuck w sw : RW w sw -> w_alloc_stuck w = false.
+Proof. intros H. unfold w_alloc_stuck. rewrite (RW_stuck _ _ H), (R_stuck _ _ _ (RW_alloc _ _ H)). reflexivity. Qed.
 
 (* ------------------------------------------------------------------ *)
 (* runs *)
@@ -294,12 +391,15 @@ Lemma wrun_cons fixed w o os :
   (fst (wrun fixed (fst (wstep fixed w o)) os), snd (wstep fixed w o) :: snd (wrun fixed (fst (wstep fixed w o)) os)).
 Proof. cbn [wrun]. destruct (wstep fixed w o) as [w1 out]. cbn [fst snd]. destruct (wrun fixed w1 os). reflexivity. Qed.
 
+Lemma zlist_eqb_refl l : zlist_eqb l l = true.
+Proof. induction l as [|x l IH]; [reflexivity|]. cbn. rewrite Z.eqb_refl, IH. reflexivity. Qed.
+
 Lemma wout_eqb_refl x : wout_eqb x x = true.
 Proof.
   assert (forall e, entity_eqb e e = true) as He by (intros e; apply entity_eqb_eq; reflexivity).
   assert (forall l, ents_eqb l l = true) as Hl.
   { induction l as [|e l IH]; [reflexivity|]. cbn. rewrite He, IH. reflexivity. }
-  destruct x as [l|[[p g]|]|[g|]|b|l|l| | ]; cbn; auto.
+  destruct x as [l|[[p g]|]|[g|]|b|l|l| | |r|o|n|l|l|r|v|l|k]; unfold wout_eqb; auto; try apply zlist_eqb_refl.
   - rewrite Nat.eqb_refl, Z.eqb_refl. reflexivity.
   - apply Z.eqb_refl.
   - destruct b; reflexivity.
@@ -320,7 +420,7 @@ Proof.
     rewrite (RW_ok _ _ HRW1). cbn [negb]. rewrite wout_eqb_refl. apply IH. assumption.
 Qed.
 
-Theorem wrun_never_stuck os1 : w_is_stuck (fst (wrun true w_init os1)) = false.
+Theorem wrun_never_stuck os1 : w_alloc_stuck (fst (wrun true w_init os1)) = false.
 Proof.
   destruct (wrun_accepted os1 w_init s_init 0%nat RW_init) as [_ [sw' H]]. apply (RW_not_stuck _ _ H).
 Qed.
